@@ -57,6 +57,14 @@ func NewDefaultConfig() Config {
 	}
 }
 
+// FlushTo flushes f and stores the flush error in err unless it already holds one.
+// It is meant to be deferred, so that output which could not be written is not lost silently.
+func FlushTo(f interface{ Flush() error }, err *error) {
+	if ferr := f.Flush(); *err == nil {
+		*err = ferr
+	}
+}
+
 // Reporter is the reporting interface
 type Reporter interface {
 	Process(ln *shared.LogNode) error
